@@ -55,6 +55,86 @@ type c13Run struct {
 	regrantSince  map[string]bool // a grant event happened after the document left the view
 	innerViol     map[string]string
 	innerVisible  map[string]string
+	open          *c13Open
+	markerN       int
+	abandoned     bool
+}
+
+// c13Open is an open (continuous) pull
+type c13Open struct {
+	feed   <-chan *ChangeEntry
+	cancel context.CancelFunc
+}
+
+func (r *c13Run) startOpen() error {
+	e := r.e
+	u, err := e.db.Authenticator(e.ctx).GetUser(r.n("u"))
+	if err != nil || u == nil {
+		return fmt.Errorf("get user: %v", err)
+	}
+	uc := *e.coll
+	uc.user = u
+	cctx, cancel := context.WithCancel(e.ctx)
+	feed, err := uc.MultiChangesFeed(cctx, base.SetOf("*"), ChangesOptions{Since: r.last, Revocations: true, Continuous: true, Wait: true, ChangesCtx: cctx})
+	if err != nil {
+		cancel()
+		return err
+	}
+	r.open = &c13Open{feed: feed, cancel: cancel}
+	return nil
+}
+
+// syncOpen waits until the open pull has delivered everything up to now (a marker document in the public channel is
+// written and awaited on the feed), applying every entry as the client would, then judges the replica
+func (r *c13Run) syncOpen(rep *vreport.Report) map[string]string {
+	viol := map[string]string{}
+	e := r.e
+	r.pullN++
+	r.markerN++
+	marker := r.n(fmt.Sprintf("mk%d", r.markerN))
+	if _, _, err := e.coll.Put(e.ctx, marker, Body{"channels": []string{"!"}}); err != nil {
+		viol["C13/harness/marker"] = err.Error()
+		return viol
+	}
+	c13WaitFeed(e)
+	u, err := e.db.Authenticator(e.ctx).GetUser(r.n("u"))
+	if err != nil || u == nil {
+		viol["C13/harness/get-user"] = fmt.Sprint(err)
+		return viol
+	}
+	uc := *e.coll
+	uc.user = u
+	deadline := time.After(20 * time.Second)
+	for {
+		select {
+		case entry, ok := <-r.open.feed:
+			if !ok {
+				viol["C13/open-pull/feed-closed"] = fmt.Sprintf("the open pull ended by itself; history %v", r.hist)
+				return viol
+			}
+			if entry == nil {
+				continue
+			}
+			if entry.Err != nil {
+				viol["C13/changes-entry-error/open"] = entry.Err.Error()
+				continue
+			}
+			if entry.ID == marker {
+				r.last = entry.Seq
+				r.compare("open", &uc, viol)
+				return viol
+			}
+			if strings.HasPrefix(strings.TrimSuffix(entry.ID, r.sfx), "mk") {
+				continue
+			}
+			r.applyEntry(entry, &uc, "open", 0, viol)
+		case <-deadline:
+			r.abandoned = true
+			rep.Add("open_pull_scenarios_abandoned", 1)
+			rep.Cap("an open-pull scenario was abandoned: the marker document did not arrive on the feed within 20 s")
+			return viol
+		}
+	}
 }
 
 type c13Env struct {
@@ -254,6 +334,48 @@ func (r *c13Run) visible() map[string]string {
 	return out
 }
 
+// applyEntry is the client's handling of one announced change
+func (r *c13Run) applyEntry(entry *ChangeEntry, uc *DatabaseCollectionWithUser, tag string, page int, viol map[string]string) {
+	e := r.e
+	if strings.HasPrefix(entry.ID, "_user/") || strings.HasPrefix(entry.ID, "_role/") {
+		r.last = entry.Seq
+		return
+	}
+	r.last = entry.Seq
+	if r.e.debug {
+		fmt.Printf("REPLAY-ENTRY pull%d page%d seq=%s id=%s deleted=%v revoked=%v removed=%v allRemoved=%v changes=%v\n", r.pullN, page, entry.Seq.String(), entry.ID, entry.Deleted, entry.Revoked, entry.Removed, entry.allRemoved, entry.Changes)
+	}
+	if !strings.HasSuffix(entry.ID, r.sfx) || strings.HasPrefix(entry.ID, "mk") {
+		return // a marker document (public channel), of this or of another history run on the same database
+	}
+	short := strings.TrimSuffix(entry.ID, r.sfx)
+	if entry.Deleted || entry.Revoked || entry.allRemoved {
+		if entry.Revoked {
+			r.revoked[short] = true
+			if _, vis := r.visible()[short]; vis {
+				viol["C13/revocation-for-visible-document/"+tag] = fmt.Sprintf("document %s announced as revoked but the user can still see it (history %v)", short, r.hist)
+			}
+		}
+		delete(r.replica, short)
+		return
+	}
+	rev := ""
+	if len(entry.Changes) > 0 {
+		rev = entry.Changes[0][ChangesVersionTypeRevTreeID]
+	}
+	body, ferr := uc.Get1xRevBody(e.ctx, entry.ID, rev, false, nil)
+	if ferr != nil {
+		viol["C13/announced-change-not-fetchable/"+tag] = fmt.Sprintf("document %s rev %s announced to the user but fetching it fails: %v (history %v)", short, rev, ferr, r.hist)
+		return
+	}
+	if removed, _ := body[BodyRemoved].(bool); removed {
+		delete(r.replica, short)
+		return
+	}
+	r.replica[short] = rev
+	delete(r.revoked, short)
+}
+
 // pull runs the client until it is caught up; returns violations.
 func (r *c13Run) pull(limit int) map[string]string {
 	viol := map[string]string{}
@@ -289,45 +411,20 @@ func (r *c13Run) pull(limit int) map[string]string {
 				continue
 			}
 			n++ // principal pseudo-entries count towards the limit too
-			if strings.HasPrefix(entry.ID, "_user/") || strings.HasPrefix(entry.ID, "_role/") {
-				r.last = entry.Seq
-				continue
-			}
-			r.last = entry.Seq
-			if r.e.debug {
-				fmt.Printf("REPLAY-ENTRY pull%d page%d seq=%s id=%s deleted=%v revoked=%v removed=%v allRemoved=%v changes=%v\n", r.pullN, page, entry.Seq.String(), entry.ID, entry.Deleted, entry.Revoked, entry.Removed, entry.allRemoved, entry.Changes)
-			}
-			short := strings.TrimSuffix(entry.ID, r.sfx)
-			if entry.Deleted || entry.Revoked || entry.allRemoved {
-				if entry.Revoked {
-					r.revoked[short] = true
-					if _, vis := r.visible()[short]; vis {
-						viol["C13/revocation-for-visible-document/"+tag] = fmt.Sprintf("document %s announced as revoked but the user can still see it (history %v)", short, r.hist)
-					}
-				}
-				delete(r.replica, short)
-				continue
-			}
-			rev := ""
-			if len(entry.Changes) > 0 {
-				rev = entry.Changes[0][ChangesVersionTypeRevTreeID]
-			}
-			body, ferr := uc.Get1xRevBody(e.ctx, entry.ID, rev, false, nil)
-			if ferr != nil {
-				viol["C13/announced-change-not-fetchable/"+tag] = fmt.Sprintf("document %s rev %s announced to the user but fetching it fails: %v (history %v)", short, rev, ferr, r.hist)
-				continue
-			}
-			if removed, _ := body[BodyRemoved].(bool); removed {
-				delete(r.replica, short)
-				continue
-			}
-			r.replica[short] = rev
-			delete(r.revoked, short)
+			r.applyEntry(entry, &uc, tag, page, viol)
 		}
 		if limit == 0 || n < limit {
 			break
 		}
 	}
+	r.compare(tag, &uc, viol)
+	return viol
+}
+
+// compare judges the client replica against what the user can see now
+func (r *c13Run) compare(tag string, uc *DatabaseCollectionWithUser, viol map[string]string) {
+	e := r.e
+	_ = e
 	// the replica must equal the documents the user can see now
 	want := r.visible()
 	for id, rev := range want {
@@ -377,8 +474,7 @@ func (r *c13Run) pull(limit int) map[string]string {
 			}
 		}
 	}
-	return viol
-}
+	}
 
 // c13WaitFeed waits (spinning, sub-millisecond granularity) until the change cache has processed every allocated sequence.
 func c13WaitFeed(e *c13Env) {
@@ -446,6 +542,25 @@ func (e *c13Env) run(t testing.TB, r *vreport.Report, hist []string) {
 		t0 := time.Now()
 		if e.debug {
 			defer func(sym string, t0 time.Time) { fmt.Printf("REPLAY-ENTRY timing %s started at %v\n", sym, t0.Format("15:04:05.000")) }(sym, t0)
+		}
+		if sym == "open" {
+			if err := run.startOpen(); err != nil {
+				r.Violate("C13/open-pull/start-failed", err.Error(), c13Case{Hist: hist[:i+1]})
+				return
+			}
+			defer run.open.cancel()
+			continue
+		}
+		if strings.HasPrefix(sym, "pull:") && run.open != nil {
+			c13WaitFeed(e)
+			for fp, d := range run.syncOpen(r) {
+				r.Violate(fp, d, c13Case{Hist: hist[:i+1]})
+			}
+			if run.abandoned {
+				return
+			}
+			r.Add("open_pull_sync_points", 1)
+			continue
 		}
 		if strings.HasPrefix(sym, "pull:") {
 			limit := int(sym[5] - '0')
@@ -516,7 +631,7 @@ func (e *c13Env) run(t testing.TB, r *vreport.Report, hist []string) {
 func TestVerifC13(t *testing.T) {
 	r := vreport.Begin("C13")
 	defer r.Finish(t)
-	r.Rule("every sequence of up to D world events from a 16-symbol alphabet (document channel moves, two-channel document, channel removal, delete; admin channels of the user; role assignment, role channels, role deletion; granting document for the user / for the role, grant removal, granting-document delete) x every placement of pulls after events (the last event is always followed by a pull) x paging limit {0,1,2}; plus, from a populated world (user with channel A directly and B through a role, six documents in A, one in A and B, client caught up; query pagination 2), every sequence of D-1 events x pull placements x limit {0,2,5}; the client resumes from the last position it received with revocations on; non-trivial = distinct (world sequence, pull placement, limit)")
+	r.Rule("every sequence of up to D world events from a 16-symbol alphabet (document channel moves, two-channel document, channel removal, delete; admin channels of the user; role assignment, role channels, role deletion; granting document for the user / for the role, grant removal, granting-document delete) x every placement of pulls after events (the last event is always followed by a pull) x paging limit {0,1,2}; plus, from a populated world (user with channel A directly and B through a role, six documents in A, one in A and B, client caught up; query pagination 2), every sequence of D-1 events x pull placements x limit {0,2,5}; plus open (continuous) pulls: from three base histories the client opens one pull and keeps it open through every sequence of D-1 further events, judged after each once a marker document has come through the feed; the client resumes from the last position it received with revocations on; non-trivial = distinct (world sequence, pull placement, limit)")
 	r.Assume("the client follows the replication protocol's rules: it drops a document on deleted / revoked / removed-from-all-visible-channels, otherwise fetches the announced revision as the user; world events and pulls interleave at operation granularity with the mutation feed drained before each pull")
 	e := &c13Env{}
 	fresh := func() {
@@ -641,6 +756,45 @@ func TestVerifC13(t *testing.T) {
 		}
 	}
 	rec2(nil)
+	// open (continuous) pulls: the client opens one pull after a base history and keeps it open; after every further
+	// event it waits until the feed has caught up (marker document) and the replica is judged
+	openBases := [][]string{
+		{"u:A", "d1:A", "d2:AB", "pull:0", "open"},
+		{"u+r", "r:B", "u:A", "d1:A", "d2:AB", "pull:0", "open"},
+		{"d1:A", "d2:AB", "open"},
+	}
+	D3 := 2
+	if r.Thorough() {
+		D3 = 3
+	}
+	r.Note("open_pull_depth", D3)
+	for _, ob := range openBases {
+		var rec3 func(w []string)
+		rec3 = func(w []string) {
+			if len(w) == D3 {
+				idx++
+				if !r.Mine(idx) || r.Expired() {
+					return
+				}
+				hist := append([]string{}, ob...)
+				for _, s := range w {
+					hist = append(hist, s, "pull:0")
+				}
+				if e.n%100 == 99 {
+					fresh()
+				}
+				e.run(t, r, hist)
+				r.Add("evaluations", 1)
+				r.Add("open_pull_histories", 1)
+				r.Add("distinct_nontrivial", 1)
+				return
+			}
+			for _, s := range c13World {
+				rec3(append(append([]string{}, w...), s))
+			}
+		}
+		rec3(nil)
+	}
 	// the role is deleted while it is being given a further channel (and the client pulls in between), after the
 	// populated world plus one document in that channel
 	for _, tail := range [][]string{{"r:del*"}, {"r:del*", "d8:C"}, {"d2:AB", "r:del*"}, {"r:del*", "u:none"}} {
